@@ -236,10 +236,14 @@ class DavSys:
     # -- execution --------------------------------------------------------
 
     def replay(self, hist):
-        for op in hist:
-            info = self.apply(tuple(op), check=False)
         if self.last_audit is None:
             self.last_audit = self.audit()
+            if "sync" in self.cfg.features:
+                self.recording = False
+                self.sync_step(("init",), self.last_audit)
+                self.recording = True
+        for op in hist:
+            info = self.apply(tuple(op), check=False)
 
     def resolve_name(self, coll, name):
         if name.startswith("@gen:"):
@@ -385,6 +389,8 @@ class DavSys:
         audit = self.audit()
         self.recording = check
         self.check(op, info, resp, prev, audit, model_before, target_coll, target_name)
+        if "sync" in self.cfg.features:
+            self.sync_step(op, audit)
         self.recording = True
         self.last_audit = audit
         return info
@@ -834,6 +840,99 @@ class DavSys:
                     self.uidhist[(tcoll, ou)] = "changed-uid"
             if uid is not None:
                 self.uidhist.pop((tcoll, uid), None)
+
+    # -- C07: sync-collection ---------------------------------------------
+
+    def sync_report(self, coll, token):
+        r = self.req("REPORT", self.url(coll), dict(dav.XML_CT, Depth="1"), dav.sync_body(token, [dav.P_GETETAG]))
+        st = dav.effective_status(r, only_with_error=True)
+        if st != 207:
+            return st, None, None, r
+        ms = dav.parse_multistatus(r.body)
+        if ms.parse_error:
+            return "unparseable", None, None, r
+        changes = {}
+        dups = 0
+        base = self.url(coll)
+        for x in ms.responses:
+            nm = urllib.parse.unquote(posixpath.basename(dav.resolve_href(base, x.href or "")))
+            if nm in changes:
+                dups += 1
+            if x.status == 404:
+                changes[nm] = "404"
+            elif x.status in (None, 200):
+                changes[nm] = x.prop_text(dav.P_GETETAG)
+            else:
+                changes[nm] = "status:%s" % x.status
+        if dups:
+            changes["!dups"] = dups
+        return 207, changes, ms.sync_token, r
+
+    def sync_step(self, op, audit):
+        """After every step: one report per token issued earlier in this history (and the empty token)."""
+        for coll in ("cal",):
+            a = audit[coll]
+            if not a["exists"]:
+                continue
+            cur_token = a["tags"].get("sync")
+            snap = {nm: g[1] for nm, g in a["get"].items() if g[0] == 200}
+            toks = self.tokens
+            pairs = [("", {})] + [(t, sn) for (t, sn) in toks]
+            for (tok, old) in pairs:
+                st, changes, newtok, r = self.sync_report(coll, tok)
+                label = "empty-token" if tok == "" else "token"
+                if st != 207:
+                    self.violation("C07", "report-failed:%s:%s" % (label, st), "sync-collection with a token this collection issued answered %s" % st, {"op": op, "token": tok, "exc": r.exc})
+                    continue
+                expected = {}
+                for nm, et in snap.items():
+                    if old.get(nm) != et:
+                        expected[self.canon_name(nm)] = et
+                for nm in old:
+                    if nm not in snap:
+                        expected[self.canon_name(nm)] = "404"
+                got = {self.canon_name(k): v for k, v in changes.items()}
+                if got != expected:
+                    missing = sorted(set(expected) - set(got))
+                    extra = sorted(set(got) - set(expected))
+                    wrong = sorted(k for k in set(got) & set(expected) if got[k] != expected[k])
+                    kinds = []
+                    if missing:
+                        kinds.append("missing-" + ("removal" if any(expected[m] == "404" for m in missing) else "change"))
+                    if extra:
+                        kinds.append("extra")
+                    if wrong:
+                        kinds.append("wrong-etag-or-status")
+                    self.violation("C07", "wrong-change-list:%s:%s" % (label, "+".join(kinds)), "sync report lists %s, expected %s" % (got, expected), {"op": op, "token": tok, "old": old, "new": snap})
+                if newtok != cur_token:
+                    self.violation("C07", "returned-token-not-current:%s" % label, "report returned token %r, the collection's sync-token property is %r" % (newtok, cur_token), {"op": op})
+            if cur_token and all(t != cur_token for (t, _) in toks):
+                toks.append((cur_token, snap))
+            # foreign tokens
+            if "foreign" in self.cfg.features and self.recording:
+                issued = {t for (t, _) in toks}
+                foreign = {
+                    "zeros": "0" * 40,
+                    "other-collection": audit["ab"]["tags"].get("sync") if audit["ab"]["exists"] else None,
+                    "non-hex": "not-a-token",
+                    "non-ascii": "t\u00f6ken",
+                    "url": "http://example.com/sync/1",
+                    "short-hex": "abcdef",
+                }
+                for nm, g in a["get"].items():
+                    if g[0] == 200 and g[1]:
+                        foreign["blob-id"] = g[1].strip('"')
+                        break
+                if "git" in self.cfg.features and a.get("git", {}).get("commits"):
+                    foreign["commit-id"] = a["git"]["commits"][0]
+                for fk, tok in sorted(foreign.items()):
+                    if not tok or tok in issued:
+                        continue
+                    st, changes, newtok, r = self.sync_report(coll, tok)
+                    if st == 207:
+                        self.violation("C07", "foreign-token-accepted:%s" % fk, "a token this collection never issued (%s) was answered with a change list %s" % (fk, changes), {"op": op, "token": tok})
+                    elif not isinstance(st, int) or st < 400:
+                        self.violation("C07", "foreign-token-status:%s:%s" % (fk, st), "foreign token answered %s" % st, {"op": op, "token": tok})
 
     def versioned_meta(self, a):
         if self.cfg.metadata != "file":
